@@ -1678,6 +1678,8 @@ class Array:
         pipe_labels = [self._combine_leg_labels([labels[c] for c in cl]) for cl in combine_legs]
         for na, p, plab in zip(new_axes, pipes, pipe_labels):
             labels[na : na + p.nlegs] = [plab]
+        # legs which are not combined inherit their label: un-labeled legs stay un-labeled
+        labels = [None if lbl.startswith('?') else lbl for lbl in labels]
 
         res = Array(legs, self.dtype, self.qtotal, labels)
 
